@@ -56,7 +56,7 @@ let parse_case line : case =
          | "it" -> ()     (* u64 inputs: sized, no destructor, numbered by ordinals like every other input *)
          | "u" -> u := (v = "1")
          | "ss" -> if v = "-" then (tuned := true; ss := 1) else ss := int_of_string v
-         | "cost" | "prec" -> ()     (* clock parameters: the round sizes they lead to come from the history *)
+         | "cost" | "prec" | "max" -> ()     (* clock parameters and time ceiling: the round sizes they lead to come from the history *)
          | "FL" -> if v <> "-" then flim := Some (nat_of_int (int_of_string v))
          | "sc" -> sc := int_of_string v
          | "th" -> th := int_of_string v
